@@ -39,10 +39,10 @@ def main():
             print(pid, w, "no diff"); continue
         meta = {"property": pid, "variant": w, "repo_head": sh("git -C /repo rev-parse --short HEAD")[1].strip(), "ran": []}
         # where does the demo go?
-        m = re.search(r'(internal/[a-z_/]+|cmd/[a-z_/]+)/zz_seed_%s[a-z_]*_test\.go' % w.lower(), readme)
+        m = re.search(r'(internal/[a-z_/]+|cmd/[a-z_/]+)/zz_seed_[a-z0-9_]*%s[a-z0-9_]*_test\.go' % w.lower(), readme)
         demo_rel = m.group(0) if m else None
         pkg = "./" + os.path.dirname(demo_rel) + "/" if demo_rel else None
-        runpat = "TestSeed%s_" % w
+        runpat = "Seed(C[0-9]+)?_?%s" % w  # TestSeedA_…, TestSeedC08A…, TestZZSeedA…
         clean()
         demo_ok_clean = demo_fail_mut = None
         if demo_rel and os.path.exists(demo):
